@@ -76,8 +76,8 @@ pub fn separator_words(lang: usize) -> &'static [&'static str] {
 }
 
 const SENT_END: [&str; 10] = [". ", ".\n", ".  ", ". \t", "! ", "? ", "!\n", "?! ", "… ", "! "];
-const PUNCT_P: [&str; 28] = [
-    " - ", " -", " – ", " -- ",
+const PUNCT_P: [&str; 32] = [
+    " - ", " -", " – ", " -- ", "\u{2010}", "\u{2011}", "–", " \u{2010} ",
     ",", ", ", " , ", ".", ". ", ";", "; ", ":", ": ", "!", "! ", "?", "…", " … ", " / ", "/", "(", ") (", " — ", "«", "» ", "%", " & ",
     "...",
 ];
